@@ -225,6 +225,98 @@ def _signature_facts(src, fn):
     return out
 
 
+def _zexpr(node, names):
+    """integer arithmetic over the given names -> Gallina (Z)"""
+    if isinstance(node, ast.Name) and node.id in names:
+        return names[node.id]
+    if isinstance(node, ast.Constant) and isinstance(node.value, int) and not isinstance(node.value, bool):
+        return _z(node.value)
+    if isinstance(node, ast.BinOp) and type(node.op) in (ast.Add, ast.Sub, ast.Mult):
+        op = {ast.Add: "+", ast.Sub: "-", ast.Mult: "*"}[type(node.op)]
+        return "(%s %s %s)" % (_zexpr(node.left, names), op, _zexpr(node.right, names))
+    T.fail(REL, node, "unsupported index expression")
+
+
+def _gen_build_path(src, tree, g, parts):
+    """build_path: the exported polyline. Guards, index expressions and the offset update are generated."""
+    bp = T.find_def(tree, "build_path", REL)
+    parts.append(("build_path", T.sha(src, bp)))
+    pr = _params(bp)
+    if len(pr) != 2:
+        T.fail(REL, bp, "build_path does not take (mesh, paths)")
+    meshn, pathsn = pr
+    body = T.body_nodoc(bp)
+    if not (len(body) == 4 and isinstance(body[0], ast.Assign) and isinstance(body[0].value, ast.Call)
+            and _is_name(body[0].value.func, "PolyLine") and isinstance(body[1], ast.Assign)
+            and isinstance(body[2], ast.For) and isinstance(body[3], ast.Return)):
+        T.fail(REL, bp, "build_path is not `pm = PolyLine(); k = <int>; for l in paths.values(): ...; return pm`")
+    pm = body[0].targets[0].id
+    kname = body[1].targets[0].id
+    k0 = _const_int(body[1].value, "initial offset")
+    if not _is_name(body[3].value, pm):
+        T.fail(REL, body[3], "build_path does not return the polyline it builds")
+    lp = body[2]
+    if not (isinstance(lp.target, ast.Name) and isinstance(lp.iter, ast.Call) and T.dotted(lp.iter.func) == pathsn + ".values"
+            and not lp.iter.args):
+        T.fail(REL, lp, "outer loop is not `for l in paths.values()`")
+    ln = lp.target.id
+    if len(lp.body) != 3:
+        T.fail(REL, lp, "outer loop body is not [if len(l)>a: ..., if len(l)>b: ..., k += len(l)]")
+
+    def len_guard(st, what):
+        c = st.test if isinstance(st, ast.If) else None
+        if not (isinstance(c, ast.Compare) and isinstance(c.left, ast.Call) and _is_name(c.left.func, "len")
+                and _is_name(c.left.args[0], ln) and len(c.ops) == 1 and type(c.ops[0]) in T.CMP and not st.orelse):
+            T.fail(REL, st, what + " is not `if len(l) <cmp> <int>:`")
+        return "%s n %s" % (T.CMP[type(c.ops[0])], _z(_const_int(c.comparators[0], what)))
+
+    def vertex_append(st, what):
+        """pm.vertices.append(mesh.vertices[l[IDX]](.copy())) -> IDX node"""
+        if not (isinstance(st, ast.Expr) and isinstance(st.value, ast.Call) and T.dotted(st.value.func) == pm + ".vertices.append"
+                and len(st.value.args) == 1):
+            T.fail(REL, st, what + " is not pm.vertices.append(...)")
+        a = st.value.args[0]
+        if isinstance(a, ast.Call) and isinstance(a.func, ast.Attribute) and a.func.attr == "copy" and not a.args:
+            a = a.func.value
+        s1 = _sub(a)
+        s2 = _sub(s1[1]) if s1 else None
+        if not (s1 and T.dotted(s1[0]) == meshn + ".vertices" and s2 and _is_name(s2[0], ln)):
+            T.fail(REL, st, what + " does not append mesh.vertices[l[.]]")
+        return s2[1]
+    g1 = len_guard(lp.body[0], "first guard")
+    if len(lp.body[0].body) != 1:
+        T.fail(REL, lp.body[0], "first guard does more than one append")
+    first_idx = _const_int(vertex_append(lp.body[0].body[0], "first append"), "first index")
+    g2 = len_guard(lp.body[1], "second guard")
+    inner = lp.body[1].body
+    if not (len(inner) == 1 and isinstance(inner[0], ast.For) and isinstance(inner[0].target, ast.Name)
+            and isinstance(inner[0].iter, ast.Call) and _is_name(inner[0].iter.func, "range") and len(inner[0].iter.args) == 2
+            and isinstance(inner[0].iter.args[1], ast.Call) and _is_name(inner[0].iter.args[1].func, "len")
+            and _is_name(inner[0].iter.args[1].args[0], ln) and len(inner[0].body) == 2):
+        T.fail(REL, lp.body[1], "inner loop is not `for i in range(<int>, len(l)): append vertex; append edge`")
+    iname = inner[0].target.id
+    lo = _const_int(inner[0].iter.args[0], "range start")
+    if not _is_name(vertex_append(inner[0].body[0], "inner append"), iname):
+        T.fail(REL, inner[0], "inner loop does not append mesh.vertices[l[i]]")
+    ea = inner[0].body[1]
+    if not (isinstance(ea, ast.Expr) and isinstance(ea.value, ast.Call) and T.dotted(ea.value.func) == pm + ".edges.append"
+            and len(ea.value.args) == 1 and isinstance(ea.value.args[0], ast.Tuple) and len(ea.value.args[0].elts) == 2):
+        T.fail(REL, ea, "inner loop does not append an edge pair")
+    e1, e2 = (_zexpr(x, {kname: "k", iname: "i"}) for x in ea.value.args[0].elts)
+    adv = lp.body[2]
+    if not (isinstance(adv, ast.AugAssign) and _is_name(adv.target, kname) and isinstance(adv.op, ast.Add)
+            and isinstance(adv.value, ast.Call) and _is_name(adv.value.func, "len") and _is_name(adv.value.args[0], ln)):
+        T.fail(REL, adv, "offset update is not `k += len(l)`")
+    g.append("(* ---- build_path: the exported polyline *)")
+    g.append("Definition bp_k0 : Z := %s." % _z(k0))
+    g.append("Definition bp_first_guard (n : Z) : bool := %s." % g1)
+    g.append("Definition bp_first_index : Z := %s." % _z(first_idx))
+    g.append("Definition bp_loop_guard (n : Z) : bool := %s." % g2)
+    g.append("Definition bp_range_lo : Z := %s." % _z(lo))
+    g.append("Definition bp_edge (k i : Z) : Z * Z := (%s, %s)." % (e1, e2))
+    g.append("Definition bp_advance (k n : Z) : Z := k + n.")
+
+
 def gen_paths():
     src, tree = T.load(REL)
     parts = []
@@ -623,6 +715,7 @@ def gen_paths():
     g.append("Definition default_weights_is_length : bool := %s." % ("true" if all(f[0] for f in fl) else "false"))
     g.append("Definition default_export_is_false : bool := %s." % ("true" if all(f[1] for f in fl) else "false"))
 
+    _gen_build_path(src, tree, g, parts)
     out = T.header("C09: weight selectors, relaxation test, sink construction, shortcut plumbing (paths.py)", parts)
     return out, g
 
